@@ -163,10 +163,8 @@ def run(tier, seed):
                 for x, y in pairs:
                     d = floor_demand(op, cdiv, x, y, bits, signed)
                     hazard = signed and x == lo and y == -1
-                    if d == cU and not hazard:
-                        continue
-                    if hazard:
-                        continue   # executed below, from the model's hazard list, each in its own child
+                    if d == cU:
+                        continue   # no demand (cells where the model reaches UB are executed below, from its hazard list)
                     desc = {"part": "wide", "op": op, "cdiv": cdiv, "type": tag, "a_is_min": x == lo,
                             "b": y if y in (-1, 0) else "other", "const_divisor": False}
                     cl.append(["%s%s_%s" % (pre, op, tag), [calls.ienc(x), calls.ienc(y)]])
